@@ -1,5 +1,7 @@
 package main
 
+import "strings"
+
 func init() {
 	replayGens["controller.(*Controller).handleEvent"] = replayEndpointEventOrder
 }
@@ -7,7 +9,7 @@ func init() {
 // the store's delta for an address listed both as removed and as added is "remove it, then add it"
 // (the endpoint stays); the controller applies the additions first and the removals last
 func replayEndpointEventOrder(rc *ReplayCtx) (string, string, string, bool) {
-	if rc.o.Kind != "post" {
+	if rc.o.Kind != "post" || !strings.Contains(rc.o.Name, "removals-first") {
 		return "", "", "", false
 	}
 	src := `package controller
